@@ -28,6 +28,7 @@ enum Strategy : int { S_AUTO = -1, S_RW = 0, S_PCT = 1, S_BURST = 2, S_RWPLAIN =
 struct RunCfg {
   uint64_t seed = 1;
   bool weak = false;        // inject stale reads / spurious weak-CAS failures
+  bool tso = false;         // x86-TSO machine: per-thread FIFO store buffers (stores other than seq_cst ones become visible later)
   uint32_t window = 16;     // staleness window W in scheduler steps
   bool freeze = false;      // C16: one solo episode per run
   int strategy = S_AUTO;
@@ -90,6 +91,7 @@ struct Stats {
     uaf_checks, allocs, frees, drain_episodes, loc_overflow, shadow_overflow, solo_episodes, solo_max_steps,
     diag_atomic_races;
   uint64_t strategy_count[4];
+  uint32_t solo_max_by_kind[128], solo_count_by_kind[128], solo_midop_by_kind[128];
 };
 const Stats& stats();
 
